@@ -169,9 +169,10 @@ Theorem reasm_fold_alloc : forall fs st,
      (fun r t a => exists st', r = Ok st' /\ 0 <= a /\
                    a + len (r_buf st') <= 2 * frags_bytes fs + 12 * len fs + len (r_buf st)).
 Proof.
-  induction fs as [|f rest IH]; intros st; cbn [reasm_fold frags_bytes].
-  - apply wp_ret. exists st. split; [reflexivity|]. Show.
-  - apply wp_bind. eapply wp_weaken; [apply reasm_step_spec|]. cbv beta.
+  induction fs as [|f rest IH]; intros st; cbn [reasm_fold].
+  - apply wp_ret. exists st. split; [reflexivity|]. change (frags_bytes []) with 0. lens.
+  - change (frags_bytes (f :: rest)) with (len (f_body f) + frags_bytes rest).
+    apply wp_bind. eapply wp_weaken; [apply reasm_step_spec|]. cbv beta.
     intros r t a (o & st' & -> & Ha & Ht & Hal & Htl). cbv beta iota.
     eapply wp_weaken; [apply IH|]. cbv beta.
     intros r' t' a' (st'' & -> & Ha' & Hal'). exists st''. split; [reflexivity|]. lens.
